@@ -113,6 +113,7 @@ pub fn orphans(args: &[String]) -> i32 {
         (v[0], v[1])
     };
     let synth: usize = arg(args, "--synth", "0").parse().unwrap();
+    let cap: u64 = arg(args, "--cap", "150000").parse().unwrap();
     let seed: u64 = arg(args, "--seed", "1").parse().unwrap();
     let mg = MoveGenerator::new();
     let mut w = std::io::BufWriter::new(std::fs::File::create(&output).unwrap());
@@ -142,9 +143,13 @@ pub fn orphans(args: &[String]) -> i32 {
         }
         let mut s = Searcher::new();
         crate::timer::verif::set_poll_limit(None);
+        // (a node budget keeps the event sink bounded in quiescence-explosive positions; a search cut off there is judged all the same:
+        //  its table too must hold nothing but positions it entered)
+        s.verif_set_node_limit(Some(cap));
         crate::search::verif::set_sink(true);
         let r = catch_unwind(AssertUnwindSafe(|| s.find_best_move(&root, depth, None)));
         let evs = crate::search::verif::set_sink(false);
+        crate::timer::verif::set_node_limit(None);
         if r.is_err() {
             writeln!(w, "{}", json!({"ev":"orph","fen":fen,"depth":depth,"panic":true})).ok();
             continue;
@@ -201,7 +206,9 @@ pub fn orphans(args: &[String]) -> i32 {
         found.truncate(8);
         for (_, q, d) in found {
             let d2 = d.max(1).min(depth);
+            s.verif_set_node_limit(Some(cap));
             let r = catch_unwind(AssertUnwindSafe(|| s.find_best_move(&q, d2, None)));
+            crate::timer::verif::set_node_limit(None);
             let mut ev = json!({"ev":"poison","first":fen,"d1":depth,"fen":proj::project(&q),"pos":proj::project_struct(&q),"d2":d2});
             match r {
                 Ok((_, mv)) => ev["mv"] = json!(mv.map(|m| proj::move_text(&m)).unwrap_or_else(|| "0000".into())),
